@@ -1,4 +1,6 @@
 """C16 — the REPL / partial evaluator only ever returns what the compiled program would."""
+import re
+
 import gen
 import lib
 import progen
@@ -70,6 +72,9 @@ def run(chk):
         if kind != "R":
             continue            # the evaluator may stop at its depth limit / reject: no claim
         residual = bytes.fromhex(f[1]).decode("utf8", "replace")
+        # the one-byte atom 0x23 prints as a lone `#`, which the reader does not take back (a
+        # print/read matter, C09/C15, not the evaluator's): spell it as the number it is
+        residual = re.sub(r"(?<=[\s(])#(?=[\s)])", "35", residual)
         ah = " ".join(gen.hexv(a) for a in args)
         comp_lines.append("text:O0 " + wrap(params, helpers, progen.text(body)).encode().hex() + " " + ah)
         comp_lines.append("text:O0 " + wrap(params, helpers, residual).encode().hex() + " " + ah)
@@ -87,7 +92,12 @@ def run(chk):
             chk.count("residual-does-not-compile")
             # a residual that cannot be compiled is only a violation if the original returns a value
             if any(x[0] == "V" for x in orig[2:]):
-                chk.fail("oracle", "repl:residual-uncompilable",
+                sig = "repl:residual-uncompilable"
+                if not closed and re.search(r"(?:\(|\s)(?:1|q) \. [A-Z][0-9]+\)", residual):
+                    sig = "repl:free-variable-quoted-in-compiled-fragment"
+                elif re.search(r"(?:\(|\s)(?:1|q) \. [A-Za-z0-9_]+_\$_[0-9]+\)", residual):
+                    sig = "repl:let-bound-name-quoted"
+                chk.fail("oracle", sig,
                          {"session": [progen.text(h) for h in helpers] + [progen.text(body)], "residual": residual[:400]},
                          " ".join(resid)[:200])
             continue
@@ -96,7 +106,6 @@ def run(chk):
             chk.count(f"orig-{x[0]}/resid-{y[0]}/src-{s[0]}")
             if x[0] == "V" and x != y:
                 sig = "repl:residual-differs"
-                import re
                 if not closed and re.search(r"(?:\(|\s)(?:1|q) \. [A-Z][0-9]+\)", residual):
                     sig = "repl:free-variable-quoted-in-compiled-fragment"
                 elif re.search(r"(?:\(|\s)(?:1|q) \. [A-Za-z0-9_]+_\$_[0-9]+\)", residual):
